@@ -4,6 +4,7 @@ package vc
 
 import (
 	"fmt"
+	"regexp"
 	"go/token"
 	"strings"
 )
@@ -48,6 +49,8 @@ type FuncCtx struct {
 	inputs  []InputLeaf // symbolic inputs for replay
 	labelN  map[string]int
 	dead    [][2]int // fact index ranges scoped to finished loop bodies
+	merges  map[string][]string // merged path condition -> its disjuncts
+	pcDefs  map[string]string   // named path condition -> its definition
 	Aborted string // non-empty: out-of-subset reason
 	sorts   map[string]string
 }
@@ -69,7 +72,7 @@ type ElemLeaf struct {
 }
 
 func newFuncCtx(name string) *FuncCtx {
-	return &FuncCtx{Name: name, labelN: map[string]int{}, sorts: map[string]string{}}
+	return &FuncCtx{Name: name, labelN: map[string]int{}, sorts: map[string]string{}, merges: map[string][]string{}, pcDefs: map[string]string{}}
 }
 
 func (c *FuncCtx) fresh(prefix, sort string) string {
@@ -132,6 +135,11 @@ func (c *FuncCtx) oblige(class, label string, props []string, pos token.Position
 
 // Query renders the SMT-LIB query of an obligation.
 func (o *Obligation) Query(forCVC5 bool, wantModel bool) string {
+	return o.QueryWith(forCVC5, wantModel, "")
+}
+
+// QueryWith renders the query with an additional assumption (case splitting).
+func (o *Obligation) QueryWith(forCVC5 bool, wantModel bool, extra string) string {
 	var sb strings.Builder
 	if forCVC5 {
 		if wantModel {
@@ -160,6 +168,9 @@ func (o *Obligation) Query(forCVC5 bool, wantModel bool) string {
 	}
 	if o.PC != "" && o.PC != "true" {
 		sb.WriteString("(assert " + o.PC + ")\n")
+	}
+	if extra != "" {
+		sb.WriteString("(assert " + extra + ")\n")
 	}
 	if o.Expect == "sat" {
 		sb.WriteString("(assert " + o.Goal + ")\n")
@@ -267,4 +278,39 @@ func (o *Obligation) modelTerms() (terms []string, keys []string) {
 		}
 	}
 	return
+}
+
+var pcNameRe = regexp.MustCompile(`\|pc![0-9]+\|`)
+
+// splitCases returns a case split for the obligation: the disjuncts of the
+// most recent merged path condition its PC depends on (nil if there is none).
+func (o *Obligation) splitCases() []string {
+	c := o.fn
+	seen := map[string]bool{}
+	var best string
+	bestN := -1
+	var visit func(pc string, depth int)
+	visit = func(pc string, depth int) {
+		for _, nm := range pcNameRe.FindAllString(pc, -1) {
+			if seen[nm] {
+				continue
+			}
+			seen[nm] = true
+			if ds, ok := c.merges[nm]; ok && len(ds) >= 2 && len(ds) <= 6 {
+				var n int
+				fmt.Sscanf(nm, "|pc!%d|", &n)
+				if n > bestN {
+					bestN, best = n, nm
+				}
+			}
+			if def, ok := c.pcDefs[nm]; ok && depth < 6 {
+				visit(def, depth+1)
+			}
+		}
+	}
+	visit(o.PC, 0)
+	if best == "" {
+		return nil
+	}
+	return c.merges[best]
 }
